@@ -6,33 +6,35 @@ export GOFLAGS=-mod=mod GOPROXY=off GOSUMDB=off GOTOOLCHAIN=local
 cmd=$1
 case $cmd in
 verify)
-  src=$2; name=$3; wt=/tmp/sv_$name
+  src=$2; name=$3; wt=/tmp/sv_$name; T=/tmp/svt_${name}_$$
   git -C /repo worktree remove --force $wt 2>/dev/null
   git -C /repo worktree add -q $wt HEAD || exit 2
   cd $wt
-  if ! git apply --3way $src/patch.diff 2>/tmp/sv_apply.err; then echo "APPLY-FAILED $(head -3 /tmp/sv_apply.err)"; git -C /repo worktree remove --force $wt; exit 3; fi
+  if ! git apply --3way $src/patch.diff 2>${T}_sv_apply.err; then echo "APPLY-FAILED $(head -3 ${T}_sv_apply.err)"; git -C /repo worktree remove --force $wt; exit 3; fi
   git reset -q
   go build ./... || { echo BUILD-FAILED; git -C /repo worktree remove --force $wt; exit 3; }
   suite_ok=1
-  for i in 1 2; do go test -vet=off -count=1 ./... > /tmp/sv_suite.out 2>&1 || { suite_ok=0; grep -E "^\s*--- FAIL" /tmp/sv_suite.out | head -3; }; done
+  for i in 1 2; do go test -vet=off -count=1 ./... > ${T}_sv_suite.out 2>&1 || { suite_ok=0; grep -E "^\s*--- FAIL" ${T}_sv_suite.out | head -3; }; done
   pkgdir=.
   grep -q "^package wsjson" $src/demo_test.go && pkgdir=wsjson
   cp $src/demo_test.go $pkgdir/zz_seed_demo_test.go
-  go test -vet=off -count=1 -run 'TestSeedDemo' ./$pkgdir > /tmp/sv_demo_with.out 2>&1; with_rc=$?
-  git diff > /tmp/sv_patch.diff; git checkout -q -- . 
-  go test -vet=off -count=1 -run 'TestSeedDemo' ./$pkgdir > /tmp/sv_demo_without.out 2>&1; without_rc=$?
+  go test -vet=off -count=1 -run 'TestSeedDemo' ./$pkgdir > ${T}_sv_demo_with.out 2>&1; with_rc=$?
+  git diff > ${T}_sv_patch.diff; git checkout -q -- . 
+  go test -vet=off -count=1 -run 'TestSeedDemo' ./$pkgdir > ${T}_sv_demo_without.out 2>&1; without_rc=$?
   echo "name=$name suite_with_change_ok=$suite_ok demo_with_change_rc=$with_rc demo_without_rc=$without_rc"
-  if [ $suite_ok = 1 ] && [ $with_rc != 0 ] && [ $without_rc = 0 ]; then
+  if [ $suite_ok = 1 ] && [ $with_rc != 0 ] && [ $without_rc = 0 ] && [ -n "${SEED_VERIFY_NOWRITE:-}" ]; then
+    echo CONFIRMED
+  elif [ $suite_ok = 1 ] && [ $with_rc != 0 ] && [ $without_rc = 0 ]; then
     mkdir -p /verif/seeded/$name
-    cp /tmp/sv_patch.diff /verif/seeded/$name/patch.diff
+    cp ${T}_sv_patch.diff /verif/seeded/$name/patch.diff
     cp $src/demo_test.go /verif/seeded/$name/demo_test.go
     cp $src/README.md /verif/seeded/$name/AGENT_README.md 2>/dev/null
-    tail -5 /tmp/sv_demo_with.out > /verif/seeded/$name/demo_with_change.txt
+    tail -5 ${T}_sv_demo_with.out > /verif/seeded/$name/demo_with_change.txt
     echo CONFIRMED
   else
-    echo NOT-CONFIRMED; tail -5 /tmp/sv_demo_without.out
+    echo NOT-CONFIRMED; tail -5 ${T}_sv_demo_without.out
   fi
-  cd /; git -C /repo worktree remove --force $wt
+  cd /; git -C /repo worktree remove --force $wt; rm -f ${T}_*
   ;;
 run)
   # runs the check against a scratch worktree carrying the seeded change (VERIF_REPO), evidence goes to a scratch dir
